@@ -16,7 +16,7 @@ DEFAULTS = {
     "CONSTANTS": "", "VARIABLES": "", "DEFINES": "", "PROCEDURES": "", "OPS": "",
     "MAINT_MPMC": "", "MAINT_SPIN": "", "IDLE": "         skip;", "MEMCASES": "",
     "FIBERFIELDS": "", "MGRFIELDS": "", "MODELED": "", "POST": "",
-    "SKIPKINDS": "", "TRACEACTIONS": "", "TRACENEXT": "", "FNPROC": "",
+    "SKIPKINDS": "", "TRACEACTIONS": "", "TRACENEXT": "", "FNPROC": "", "CALLLABELS": "",
     "GROUPOF": "", "GROUPVAL": "", "FAITHFUL": "", "UNFAITHFUL": "", "MONFIELDS": "", "MONCASES": "", "PROCESSES": "", "MCENV": "",
 }
 
@@ -192,6 +192,9 @@ def assemble_thread(name):
     fill_label_proc(os.path.join(GEN, name + ".tla"))
     ttmpl = open(os.path.join(SPEC, "core", "Trace.tmpl")).read()
     tsrc = fill(ttmpl, dict(DEFAULTS), name)
+    if not re.search(r"^CallLabels ==", open(os.path.join(GEN, name + ".tla")).read(), re.M):
+        # thread-regime modules pin no calls
+        tsrc = tsrc.replace("MaxStepsPerEvent == 64", 'MaxStepsPerEvent == 64\nCallLabels == [nocall |-> {}]\nPinnedLabels == {}')
     with open(os.path.join(GEN, "Trace" + name + ".tla"), "w") as f:
         f.write(tsrc)
 
@@ -256,10 +259,13 @@ def gen_mc(scen, outdir=GEN):
         f.write(body.replace("@@HEAD@@", f"---- MODULE MCT_{name} ----\nEXTENDS Trace{mod}"))
     cl = ["CONSTANTS", " Threads <- cThreads", " UserFibers <- cUser", " Script <- cScript",
           " Mutexes <- cMutexes", " MpscQs <- cMpscQs", ' defaultInitValue = defaultInitValue'] + cl_extra
+    clt = list(cl)   # trace validation: always with the occasional load balancing of fiber_manager_yield
     for k, v in consts.items():
         cl.append(f" {k} = {tla_val(v)}")
+        clt.append(f" {k} = {tla_val(True if k == 'YieldBalance' else v)}")
     for k in extra:
         cl.append(f" {k} <- c{k}")
+        clt.append(f" {k} <- c{k}")
     invs = scen.get("invariants", ["OneThreadPerFiber", "SwitchOnlyToSaved", "MutexExclusion", "QueuedOnce",
                                    "NoDeadRun", "NoDeadQueued", "PendingWakeBound", "QuiescentImpliesDone"])
     mc = ["SPECIFICATION MCSpec"] + cl + ["INVARIANTS"] + [" " + i for i in invs] + ["CHECK_DEADLOCK FALSE"]
@@ -271,13 +277,13 @@ def gen_mc(scen, outdir=GEN):
     with open(os.path.join(outdir, f"MCL_{name}.cfg"), "w") as f:
         f.write("\n".join(live) + "\n")
     tinv = scen.get("trace_invariants", invs)
-    tr = ["SPECIFICATION TSpec"] + cl + ["INVARIANTS", " Accepted", " MonOK"] + [" " + i for i in tinv] + ["CONSTRAINT NotYetAccepted", "CHECK_DEADLOCK FALSE"]
+    tr = ["SPECIFICATION TSpec"] + clt + ["INVARIANTS", " Accepted", " MonOK"] + [" " + i for i in tinv] + ["CONSTRAINT NotYetAccepted", "CHECK_DEADLOCK FALSE"]
     with open(os.path.join(outdir, f"MCT_{name}.cfg"), "w") as f:
         f.write("\n".join(tr) + "\n")
-    dg = ["SPECIFICATION TSpec"] + cl + ["CONSTRAINT DiagAt", "CHECK_DEADLOCK FALSE"]
+    dg = ["SPECIFICATION TSpec"] + clt + ["CONSTRAINT DiagAt", "CHECK_DEADLOCK FALSE"]
     with open(os.path.join(outdir, f"MCD_{name}.cfg"), "w") as f:
         f.write("\n".join(dg) + "\n")
-    dg2 = ["SPECIFICATION TSpec"] + cl + ["INVARIANT DiagStop", "CHECK_DEADLOCK FALSE"]
+    dg2 = ["SPECIFICATION TSpec"] + clt + ["INVARIANT DiagStop", "CHECK_DEADLOCK FALSE"]
     with open(os.path.join(outdir, f"MCE_{name}.cfg"), "w") as f:
         f.write("\n".join(dg2) + "\n")
     return name
